@@ -436,6 +436,85 @@ func runC13(c *explore.Ctx) {
 		s.WallS = time.Since(t0).Seconds()
 	}
 
+	// (e) root operation types and types that merely carry a default root name
+	s = c.Sub("root-names", "every choice of root operation types (query named Query or Q; mutation / subscription absent, default-named or custom-named; roots declared by a schema block or left to inference) × for every default root name that is not taken by a root: no such type, or a type of that name of each of the 6 kinds × formatter configurations (quick: 16, thorough: all 64)",
+		"as loaded-kit: the formatted schema loads into a schema with the same roots and types", "type systems that load")
+	if s != nil {
+		t0 := time.Now()
+		cfgs := allSfmtCfgs
+		if !c.Thorough() {
+			cfgs = nil
+			for _, cf := range allSfmtCfgs {
+				if cf.Indent == "\t" {
+					cfgs = append(cfgs, cf)
+				}
+			}
+			if len(cfgs) == 0 {
+				cfgs = allSfmtCfgs
+			}
+		}
+		extraKinds := []string{"", "type %s { x: Int }", "enum %s { A }", "scalar %s", "input %s { x: Int }", "interface %s { x: Int }", "union %s = %s"}
+		idx := 0
+		for _, q := range []string{"Query", "Q"} {
+			for _, m := range []string{"", "Mutation", "M"} {
+				for _, sub := range []string{"", "Subscription", "S"} {
+					for _, explicit := range []bool{true, false} {
+						var free []string
+						for _, n := range []string{"Query", "Mutation", "Subscription"} {
+							if n != q && n != m && n != sub {
+								free = append(free, n)
+							}
+						}
+						total := 1
+						for range free {
+							total *= len(extraKinds)
+						}
+						for code := 0; code < total; code++ {
+							idx++
+							if idx%c.NShards != c.Shard {
+								continue
+							}
+							var b strings.Builder
+							if explicit {
+								b.WriteString("schema { query: " + q)
+								if m != "" {
+									b.WriteString(" mutation: " + m)
+								}
+								if sub != "" {
+									b.WriteString(" subscription: " + sub)
+								}
+								b.WriteString(" }\n")
+							}
+							b.WriteString("type " + q + " { a: Int }\n")
+							if m != "" {
+								b.WriteString("type " + m + " { m: Int }\n")
+							}
+							if sub != "" {
+								b.WriteString("type " + sub + " { s: Int }\n")
+							}
+							cd := code
+							for _, n := range free {
+								k := extraKinds[cd%len(extraKinds)]
+								cd /= len(extraKinds)
+								if k == "" {
+									continue
+								}
+								if strings.Count(k, "%s") == 2 {
+									b.WriteString(fmt.Sprintf(k, n, q) + "\n")
+								} else {
+									b.WriteString(fmt.Sprintf(k, n) + "\n")
+								}
+							}
+							s.States++
+							c13Loaded(c, s, b.String(), cfgs)
+						}
+					}
+				}
+			}
+		}
+		s.WallS = time.Since(t0).Seconds()
+	}
+
 	// (c) descriptions
 	_, slots := c13DescSchema(-1, "")
 	s = c.Sub("descriptions", fmt.Sprintf("a type system using every definition kind with custom roots, a type named Subscription that is not a root, schema / repeatable directives, defaults; each of %d describable elements (schema, types, fields, arguments, enum values, input fields, directive, directive arguments, extension field) × each of %d description values (quotes, trailing quote, backslash, triple quotes, leading / trailing blanks and newlines, indentation, tab, non-BMP, '#') × all 64 configurations", slots, len(c13Descs)),
